@@ -63,8 +63,13 @@ func (self SyntaxError) description() string {
 }
 
 func calcBounds(size int, pos int) (lbound int, lwidth int, rbound int, rwidth int) {
-	if pos >= size || pos < 0 {
-		return 0, 0, size, 0
+	/* a position at or behind the end (truncated input) points just after the last byte,
+	 * the window stays bounded whatever the position is */
+	if pos > size {
+		pos = size
+	}
+	if pos < 0 {
+		pos = 0
 	}
 
 	i := 16
